@@ -8,6 +8,7 @@
 //!   {"e":"enq","resp":{...builder...}}      enqueue a response built by `respbuild`
 //!   {"e":"write","o":{"k":"accept","n":k}|{"k":"zero"}|{"k":"eintr"}|{"k":"eagain"}|{"k":"epipe"}}
 //!   {"e":"clear"}                            clear_write_buffer
+//!   {"e":"setlimit","limit":[digits]}        set_payload_max_size on the live connection
 //!   {"e":"drain"}                            try_write with accept-all until nothing is pending
 //!   {"e":"drop"}                             drop popped requests and the connection
 use crate::obs;
@@ -372,6 +373,12 @@ pub fn run_script(script: &Value, tags: &TagFiles, out: &mut dyn Write) -> bool 
                 resp.write_all(&mut ser).unwrap();
                 conn.enqueue_response(resp);
                 line = json!({"e": "enq", "ser": obs::bytes(&ser), "pending": conn.pending_write()});
+                writeln!(out, "{}", line).unwrap();
+            }
+            "setlimit" => {
+                // set_payload_max_size on a live connection (public)
+                conn.set_payload_max_size(obs::from_digits(&ev["limit"]) as usize);
+                line = json!({"e": "setlimit", "limit": ev["limit"]});
                 writeln!(out, "{}", line).unwrap();
             }
             "clear" => {
